@@ -144,6 +144,39 @@ def c03_require(agg):
     return need
 
 
+# ------------------------------------------------------------------ C04
+
+def c04_env(b):
+    e = {"IPCMON_POISON": "1"}
+    sb = [None, 8192, 16384][b % 3]
+    if sb:
+        e["IPCMON_SNDBUF"] = sb
+    return e
+
+
+def c04_plan(tier, seed):
+    out = []
+    q = tier == "quick"
+    out += jobs("os-debug", "c04", 10 if q else 24, c04_env, {"cases": 30 if q else 500}, timeout=1500)
+    out += jobs("memfd-debug", "c04", 2 if q else 6, c04_env, {"cases": 30 if q else 500}, timeout=1500)
+    out += jobs("inproc-debug", "c04", 3 if q else 6, None, {"cases": 40 if q else 500}, timeout=1500)
+    return out
+
+
+def c04_require(agg):
+    st = agg["stats"]
+    need = []
+    if st.get("identity_probes", 0) < 1000:
+        need.append("fewer than 1000 identity probes")
+    if st.get("multi_packet_values", 0) < 10:
+        need.append("fewer than 10 multi-packet enclosing messages")
+    if st.get("process_hops", 0) < 10:
+        need.append("fewer than 10 hops through another process")
+    if st.get("max_endpoints_in_one_message", 0) < 60:
+        need.append("no message with >=60 attachments")
+    return need
+
+
 # ------------------------------------------------------------------ C19
 
 def c19_plan(tier, seed):
@@ -197,6 +230,21 @@ NOTES = ("Runtime monitoring and sanitizers. ./check <id> rebuilds the harness (
 NOT_APPLICABLE = {}
 
 PROPS = {
+    "C04": {
+        "plan": c04_plan,
+        "require": c04_require,
+        "level": "exploration",
+        "level_text": "Exploration: hundreds (quick) to ~20k (thorough) generated values embedding 0..63 endpoints of seven kinds plus regions at random "
+                      "positions of nested containers travel 1..5 hops through echo relays in other threads and exec'd processes; every endpoint leaf is "
+                      "identity-probed with unique nonces against the counterpart the harness kept, travelling receivers must yield backlog ++ later "
+                      "messages in order, and no kept receiver may see a stray nonce.",
+        "level_note": "Probes run in the originating process after the last hop; identity is established by unique nonces, so a swapped, "
+                      "duplicated or misclassified descriptor shows up as a nonce on the wrong channel.",
+        "technique": "runtime monitoring: identity probes with unique nonces over generated nested values and multi-hop cross-process transfer chains",
+        "rule": "case = one generated value (shape string of containers and leaf kinds, small or padded to 2-4 packets) x hop sequence; distinct = "
+                "(shape string, multi-packet flag, hop kinds); non-trivial = at least one endpoint or region embedded",
+        "assumptions": ["probing after the final hop (not inside the relay processes) is sufficient because relays forward the value unchanged"],
+    },
     "C03": {
         "plan": c03_plan,
         "require": c03_require,
